@@ -513,8 +513,9 @@ def write_evidence(prop, cfg, tier, seed, b, fam_results, wall, nviol):
         'Print Assumptions of every Theorem in %s: %s' % (cfg['vfile'], '; '.join(
             '%s: %s' % (t, ' '.join(a.split())[:120]) for t, a in b['assumptions'].items()) or 'not available (build broken)'),
         'tools/pyfacts.py (AST fact extractor) for the Tie/*.v equalities',
-        'Extraction with ExtrOcamlBasic only (Extract Inductive bool/option/unit/list/prod/sumbool/sumor -> OCaml natives; '
-        'Extract Inlined Constant andb/orb/negb? see theories/extraction/ExtrOcamlBasic.v); Z, positive, nat stay extracted inductives; '
+        'Extraction with ExtrOcamlBasic only; its directives: Extract Inductive bool => bool [true false]; option => option [Some None]; unit => unit ["()"]; '
+        'list => list ["[]" "( :: )"]; prod => "( * )" [""]; sumbool => bool [true false]; sumor => option [Some None]; '
+        'Extract Inlined Constant andb => "(&&)"; orb => "(||)"; no other Extract directive; Z, positive, nat stay extracted inductives; '
         'ocaml/driver.ml (int<->Z conversion, line I/O)',
         'harness: scenario generators, builders, snapshot encoders, random.random patch (harness/*.py)',
         'modelled rather than verified: all Python code; the theorems are about coq/Model/*.v, tied to /repo by Tie/*.v and the lock-step correspondence',
